@@ -378,6 +378,51 @@ theorem mapFrame_releasePool (p : Pool) : MapFrame p p.releasePool := by
 
 theorem tame0_schedOpt (p : Pool) (o) : Tame0 p (p.schedOpt o) := (tame_schedOpt p o).toTame0
 
+/-- an update of a request that moves no map slot, as far as the map books and the accounting go -/
+theorem mapFrame_modReq (p : Pool) (m : Nat) (f : Req → Req)
+    (hf : ∀ x, MSigLe (f x) x := by intro x; exact ⟨rfl, rfl, rfl, Nat.le_refl _, fun h => h, rfl, Or.inl rfl, fun h => h, fun h => h, fun _ => rfl, fun _ => Nat.le_refl _⟩) :
+    MapFrame p (p.modReq m f) := by
+  refine ⟨rfl, fun t tk' h => ⟨tk', h, rfl, rfl⟩, by simp [modReq], ?_⟩
+  intro i r' h
+  simp only [modReq] at h
+  obtain ⟨x, hx, rfl⟩ := getElem?_modify_some p.reqs m i f r' h
+  refine Or.inl ⟨x, hx, ?_⟩
+  split
+  · exact hf x
+  · exact MSigLe.refl x
+
+theorem _root_.Taskpool.Sem.release_own (s : Sem) (i : Nat) (h : ownCancelled i s.waiters) : ownCancelled i s.release.1.waiters := by
+  unfold Sem.release Sem.wakeNext
+  exact ownCancelled_wake i _ _ h
+
+theorem _root_.Taskpool.Sem.wakeNext_own (s : Sem) (i : Nat) (h : ownCancelled i s.waiters) : ownCancelled i s.wakeNext.1.waiters := by
+  unfold Sem.wakeNext
+  exact ownCancelled_wake i _ _ h
+
+/-- `_enough_room.release()` wakes pending waiters only: a cancelled spawner stays doomed -/
+theorem cancOK_releasePool {E : Nat → Prop} (p : Pool) (h : CancEx E p) : CancEx E p.releasePool := by
+  unfold releasePool
+  refine (tame_schedOpt _ _).cok E ?_
+  exact h.frame (fun i x => Sem.release_own p.sem i x) (fun _ r' a => Or.inl ⟨r', a, CSame.refl r'⟩)
+
+/-- so does the `release()` of a call's own semaphore -/
+theorem cancOK_releaseMap {E : Nat → Prop} (p : Pool) (m : Nat) (h : CancEx E p) : CancEx E (p.releaseMap m) := by
+  unfold releaseMap
+  split
+  · exact h
+  · rename_i r hr
+    refine (tame_schedOpt _ _).cok E ?_
+    refine h.frame (fun _ x => x) ?_
+    intro i r' a
+    simp only [modReq] at a
+    obtain ⟨x, hx, rfl⟩ := getElem?_modify_some p.reqs m i _ r' a
+    refine Or.inl ⟨x, hx, ?_⟩
+    split
+    · rename_i e; subst e
+      rw [hr] at hx; cases hx
+      exact ⟨rfl, rfl, rfl, Or.inl rfl, fun h => Or.inl h, fun i h => Or.inl (Sem.release_own r.mapSem i h)⟩
+    · exact CSame.refl x
+
 theorem tame0_releaseMap (p : Pool) (m) : Tame0 p (p.releaseMap m) := by
   unfold releaseMap
   split
